@@ -904,6 +904,17 @@ Definition action_of (e : env) (cmd : string) : option (string -> st -> res unit
   if cmd =s "help" then Some (fun _ s => Ok tt (outp LUnmodelled s)) else
   None.
 
+(* _get_do_func with further plugins ([ctlplugin:*] sections of the client configuration,
+   appended after the default plugin in configuration order): do_<cmd> of the Controller
+   itself (help, EOF - part of action_of here), else of the FIRST plugin that defines it *)
+Fixpoint first_plugin {A : Type} (plugins : list (string -> option A)) (cmd : string) : option A :=
+  match plugins with
+  | [] => None
+  | p :: r => match p cmd with Some f => Some f | None => first_plugin r cmd end
+  end.
+Definition get_do_func (e : env) (extra : list (string -> option (string -> st -> res unit))) (cmd : string) :=
+  first_plugin (action_of e :: extra) cmd.
+
 (* `except Exception:` of onecmd *)
 Definition net (r : res unit) : st :=
   match r with
